@@ -62,7 +62,9 @@ def worker_main(prop, tier, seed, shard, nshards, outfile):
                 agg["maxima"][k] = v
         if out.skipped:
             agg["skipped"][out.skipped] = agg["skipped"].get(out.skipped, 0) + 1
-        if out.nontrivial:
+        if out.keys:
+            keys.update(list(out.keys)[:500])
+        elif out.nontrivial:
             keys.add(out.key if out.key is not None else common.digest(json.dumps(enc(spec), sort_keys=True)))
         if out.sample is not None and len(agg["samples"]) < 2:
             agg["samples"].append(human(out.sample))
